@@ -9,7 +9,8 @@ evaluated on them:
   pde:u     eps*u_tau - u_xx - (v - u) = 0      (x > 0, central differences, three step sizes)
   pde:v     v_tau - (u - v) = 0
   bc        u - (2/sqrt3) u_x = 1 at x = 0       (one-sided stencil, three step sizes)
-  decay     0 <= v <= u <= erfc(x sqrt(eps)/(2 sqrt(tau))) and non-increasing along x = 5, 10, 20 (, 40)
+  decay     0 <= v <= u <= erfc(x sqrt(eps)/(2 sqrt(tau))) and u, v non-increasing in x, at every lattice point and at
+            the far points x = 5, 10, 20 (, 40); absolute floor 1e-5
 
 The oracle is derived from the package docstring (exactpack/solvers/suolson/__init__.py), not from timmes.py:
 
@@ -50,16 +51,17 @@ LEVEL_NOTE = ("trusted: numpy, math.erfc, the derivation of the dimensionless pr
 BOUND = {"quick": "full product opac{1,0.3,5} x eps{1,0.1,2.5} x T_bc{1000,150} (18 vectors, K=3 of 3) x tau{0.1,1,10} x x{0,0.1,0.5,1,2.5,5} + decay x{5,10,20}",
          "thorough": "full product opac{1,0.3,5,20} x eps{1,0.1,2.5,0.4,10} x T_bc{1000,150,1,2e4} (80 vectors) x tau{0.03,0.1,0.3,1,3,10,30} x x{0,0.1,0.25,0.5,0.75,1,1.5,2.5,3.5,5} + decay x{5,10,20,40}"}
 RULE = ("tasks = every (opac, alpha, T_bc) vector of the alphabet (all deviations, i.e. the full product) x every lattice tau; per task every lattice x "
-        "(PDE clauses at x>0, Marshak clause at x=0, decay clause at the far points); an evaluation is one public SuOlson(z_array, t) call "
-        "(13 per task: the central time and 12 displaced times of the tau stencils); a case (vector, tau, x, clause) is non-trivial when u > 1e-3 there "
-        "(below that every term of the equations sits at the quadrature floor and only the absolute floor decides); decay cases are non-trivial when "
-        "the comparison bound is below 1e-3 (the far field really is required to be small); distinct by (vector, tau, x, clause)")
+        "(PDE clauses at x>0 where u > 1e-4, Marshak clause at x=0, decay/comparison clause at every lattice point and the far points); an evaluation is "
+        "one public SuOlson(z_array, t) call (13 per task: the central time and 12 displaced times of the tau stencils); a PDE case (vector, tau, x) is "
+        "non-trivial when u > 1e-3 there (below 1e-4 every term sits at the quadrature floor and the comparison clause decides instead); decay cases are "
+        "non-trivial when the comparison bound is below 1e-3 (the far field really is required to be small); distinct by (vector, tau, x, clause)")
 ASSUMPTIONS = [
     "values outside the parameter / tau / x alphabets are not explored",
     "the dimensionless variables are those that turn the documented physical equations into the statement's (x = sqrt3 kappa z, tau = 4ac kappa t/alpha, eps = 4a/alpha); a = documented default alpha / 4, c = 2.99792458e10 cm/s",
     "opacity is used as an inverse length (the documented equations contain no density), as the docstring's equations do",
     "derivatives are finite differences of public output at three step sizes (minimum residual reported); a defect smaller than 2e-3 of the sum of the absolute terms + 1e-5 is not seen",
     "the PDE is evaluated at x > 0 only (statement: 'for x>0'); x = 0 carries the Marshak clause",
+    "'decays to zero as x -> infinity' is decided on the finite lattice through the comparison principle 0 <= v <= u <= erfc(x sqrt(eps)/(2 sqrt(tau))) with an absolute floor of 1e-5 (derived in the module docstring from the statement's own equations)",
 ]
 
 SOLVER = "suolson.suolson.SuOlson"
@@ -76,12 +78,20 @@ TAUS = {"quick": [0.1, 1.0, 10.0], "thorough": [0.03, 0.1, 0.3, 1.0, 3.0, 10.0, 
 XS = {"quick": [0.0, 0.1, 0.5, 1.0, 2.5, 5.0], "thorough": [0.0, 0.1, 0.25, 0.5, 0.75, 1.0, 1.5, 2.5, 3.5, 5.0]}
 FAR = {"quick": [5.0, 10.0, 20.0], "thorough": [5.0, 10.0, 20.0, 40.0]}
 
-# Tolerances (class D, DESIGN.md 4.1): |residual| <= RTOL * sum|terms| + ATOL.
-# Measured on the unchanged tree over the THOROUGH lattice (see the calibration note at the end of this file):
-#   pde:u  worst |R|/(sum|terms|) where sum|terms| > 1e-2 : 1.5e-4     worst |R| where sum|terms| <= 1e-2 : 8e-7
-#   pde:v  worst relative 2.1e-5, worst absolute 5e-8
-#   bc     worst |u - (2/sqrt3)u_x - 1| : 6.6e-5
-# seeded changes (mutants/C18) give >= 6e-2 relative.
+# Tolerances (class D, DESIGN.md 4.1): |residual| <= RTOL * sum|terms| + ATOL, minimum over the three step sizes.
+# Measured on the unchanged tree over the THOROUGH lattice (80 vectors x 7 tau x 9 x; evidence key worst_residuals):
+#   pde:u  judged points (u > 1e-4): worst |R|/(RTOL*S+ATOL) = 0.164, worst |R|/S = 5.5e-4.  Every residual above 2e-5 of S
+#          is R = -(error of v) of the recorded truncated-sum defect (findings_proposed/C18.md; 4e-6 at x=5, tau=0.3);
+#          the finite differences themselves contribute <= 5e-5 of S (points with x <= 2.5: ratio <= 0.02).
+#   pde:v  worst ratio 0.030, worst |R|/S = 1.0e-3 (at S ~ 3e-4, i.e. |R| = 3e-7)
+#   bc     worst |u - (2/sqrt3)u_x - 1| = 2.6e-6                               (BC_TOL 2e-3: x 800)
+#   decay  worst excess over the comparison bound 5.4e-5 (the recorded defect; 2.6e-5 on the quick lattice);
+#          with the defect patched (piece cap 20000) the worst excess is 2.8e-6  (FLOOR 1e-5: x 3.6)
+# Seeded changes (mutants/C18): dimensionalisation errors give |R|/S = 0.13 ... 0.83 and Marshak residuals 1.8, i.e.
+# >= 65 x RTOL, so RTOL <= 0.1 x the smallest seeded residual holds.
+# Points with u <= JUDGE_U are not judged by the PDE clauses: there every term is at the quadrature floor (u ~ 5e-8,
+# jumps of 1e-8 between neighbouring abscissae) and second differences of that noise reach 8e-6 at the small steps a
+# thin front needs; the comparison clause (0 <= v <= u <= erfc bound, floor 1e-5) decides those points instead.
 RTOL = 2.0e-3
 ATOL = 1.0e-5
 BC_TOL = 2.0e-3          # the Marshak sum is O(1): 2e-3 relative to the right-hand side 1
